@@ -215,6 +215,21 @@ def probe_wrappers(D, N, seed):
     h1 = np.asarray(sp.fft(jnp.asarray(g1)))[0].ravel()
     res["generator_zero_mean_modes"] = float(np.max(np.abs(h1[1:] - h0[1:]))) / (float(np.max(np.abs(h0))) + 1e-300)
     ok = ok and res["generator_zero_mean_modes"] < 1e-10 and abs(h1[0]) < 1e-9 * (float(np.max(np.abs(h0))) + 1)
+    # the same for DiffusedNoise; and with zero_mean=False the draw is NOT centred: diffusion keeps the mean mode, so its
+    # mean is the mean of the underlying white-noise draw (also together with max_one)
+    d0 = np.asarray(ic.DiffusedNoise(D, zero_mean=False)(N, key=key))
+    d1 = np.asarray(ic.DiffusedNoise(D, zero_mean=True)(N, key=key))
+    e0 = np.asarray(sp.fft(jnp.asarray(d0)))[0].ravel()
+    e1 = np.asarray(sp.fft(jnp.asarray(d1)))[0].ravel()
+    res["diffused_zero_mean_modes"] = float(np.max(np.abs(e1[1:] - e0[1:]))) / (float(np.max(np.abs(e0))) + 1e-300)
+    # (how the key reaches the noise is not part of the contract: only that an un-centred draw has a generic, non-zero
+    # mean — for N^D independent normals |mean| ~ N^(-D/2) — and that centring removes exactly it)
+    res["diffused_uncentred_mean"] = 0.0 if abs(float(d0.mean())) > 1e-7 * float(np.max(np.abs(d0))) else 1.0
+    res["diffused_centred_is_uncentred_minus_mean"] = float(np.max(np.abs(d1 - (d0 - d0.mean()))))
+    dm = np.asarray(ic.DiffusedNoise(D, zero_mean=False, max_one=True)(N, key=key))
+    res["diffused_uncentred_max_one"] = float(np.max(np.abs(dm - d0 / np.max(np.abs(d0)))))
+    ok = ok and res["diffused_zero_mean_modes"] < 1e-10 and abs(e1[0]) < 1e-9 * (float(np.max(np.abs(e0))) + 1) \
+        and res["diffused_uncentred_mean"] < 1e-12 and res["diffused_uncentred_max_one"] < 1e-12 and res["diffused_centred_is_uncentred_minus_mean"] < 1e-12
     res["ok"] = bool(ok)
     return res
 
